@@ -1,6 +1,7 @@
 """Executor for WASI file-system histories: every operation runs through the agent (wasi.c under ASan) on real/ and as the
 corresponding POSIX call on mirror/; results are compared step by step. Used by C12, C13, C14 (state machines + replay)."""
 import errno
+import fcntl
 import os
 import shutil
 import stat
@@ -460,6 +461,42 @@ class FsExecutor(object):
     def fd_tell(self, fd):
         self.record('fd_tell', fd)
         self.check_position(fd)
+
+    def fd_fdstat_get(self, fd, unstable=False):
+        """fd_fdstat_get on a live descriptor: succeeds when fstat of the corresponding POSIX descriptor does, reports its file type
+        (regular / directory / character device) and the append flag the descriptor was opened with, and writes exactly the
+        24-byte record (padding zero, nothing behind it)"""
+        self.record('fd_fdstat_get', fd, unstable)
+        d = self.fds[fd]
+        if d['closed']:
+            return
+        self.agent.fill(STATBUF, 48)
+        r = self.agent.call('fd_fdstat_get', unstable, fd, STATBUF)
+        try:
+            if d.get('mfd') is not None:
+                mst = os.fstat(d['mfd'])
+                app = bool(fcntl.fcntl(d['mfd'], fcntl.F_GETFL) & os.O_APPEND)
+            else:
+                mst = os.stat(d['path'])
+                app = False
+                if d.get('ino') is not None and mst.st_ino != d['ino']:
+                    return
+        except OSError:
+            return
+        if len(d.get('wpath') or b'') >= self.PATH_MAX - 8:
+            return
+        if r != 0:
+            self.fail('fdstat-failed', 'fd_fdstat_get(%d) failed with %s on a live descriptor whose POSIX counterpart answers fstat' % (fd, ename(r)))
+        raw = self.agent.peek(STATBUF, 32)
+        mft = 3 if stat.S_ISDIR(mst.st_mode) else 4 if stat.S_ISREG(mst.st_mode) else 2 if stat.S_ISCHR(mst.st_mode) else None
+        flags = struct.unpack('<H', raw[2:4])[0]
+        if mft is not None and raw[0] != mft:
+            self.fail('fdstat-type', 'fd_fdstat_get(%d) reports file type %d, fstat of the POSIX descriptor gives %d' % (fd, raw[0], mft))
+        if d.get('mfd') is not None and bool(flags & 1) != app:
+            self.fail('fdstat-flags', 'fd_fdstat_get(%d) reports fdflags %#x, the POSIX descriptor %s O_APPEND' % (fd, flags, 'has' if app else 'does not have'))
+        if raw[1] != 0 or raw[4:8] != b'\0' * 4 or raw[24:32] != bytes([CANARY] * 8):
+            self.fail('guest-overwrite', 'fd_fdstat_get(%d): padding of the 24-byte record not zero, or bytes behind it written: %s' % (fd, raw.hex()))
+        self.flags.add('fdstat_of_live_descriptor')
 
     def fd_filestat_get(self, fd, unstable):
         self.record('fd_filestat_get', fd, unstable)
